@@ -16,6 +16,7 @@ ATOM_SPECS = {
     "pattern": ("ex.str", "pattern: ^a{2,3}$"), "in": ("ex.str", "in: [aa, aaa]"), "inNumbers": ("ex.num", "in: [2, 3]"),
     "containsAll": ("ex.str", "containsAll: [aa, aaa]"), "containsSome": ("ex.str", "containsSome: [aa, aaa]"),
     "minInclusiveFine": ("ex.fine", "minInclusive: 2.0000001"), "maxExclusiveFine": ("ex.fine", "maxExclusive: 3.0000001"),
+    "patternLeadingBlank": ("ex.str", 'pattern: " a{2,3}$"'),
     "inHalves": ("ex.half", "in: [2.5, 3.5]"), "inIntsOnFractions": ("ex.frac", "in: [2, 3]"),
     "containsAllHalves": ("ex.half", "containsAll: [2.5, 3.5]"), "containsSomeHalves": ("ex.half", "containsSome: [2.5, 3.5]"),
     "minCount": ("ex.num", "minCount: 2"), "maxCount": ("ex.num", "maxCount: 2"), "exactCount": ("ex.num", "exactCount: 2"),
